@@ -898,6 +898,13 @@ func TestReadSequences(t *testing.T) {
 		calls := rapid.IntRange(2, 8).Draw(rt, "calls")
 		var history []string
 		lastSelectSW := map[uint16]uint16{}
+		type kept struct {
+			call int
+			fid  uint16
+			data []byte // the slice ReadFile returned (held by the caller, as a reader holds its files)
+			want []byte
+		}
+		var earlier []kept
 		for k := 0; k < calls; k++ {
 			i := rapid.IntRange(0, nFiles-1).Draw(rt, "which")
 			fs := specs[i]
@@ -950,6 +957,13 @@ func TestReadSequences(t *testing.T) {
 					evid.Fail(rt, "sequence", rep, "call %d, ReadFile(%04x), returned %d bytes that are not that file's %d bytes (they are %s)", k+1, fs.FID, len(data), len(fs.bytes()), whose)
 				}
 				evid.Count("sequence-call-exact", 1)
+				earlier = append(earlier, kept{k + 1, fs.FID, data, fs.bytes()})
+			}
+			// what earlier calls returned belongs to the caller: later reads must not change it
+			for _, e := range earlier {
+				if !bytes.Equal(e.data, e.want) {
+					evid.Fail(rt, "sequence", rep, "the bytes returned by call %d (ReadFile(%04x)) were changed by call %d (ReadFile(%04x)): the result aliases state of the session", e.call, e.fid, k+1, fs.FID)
+				}
 			}
 			if srv.SM != nil && err != nil {
 				// the card drops the session after an unauthenticated command; later calls can only fail - stop here
